@@ -27,7 +27,7 @@ pub fn info() -> PropInfo {
     PropInfo {
         id: "C08",
         level: "exploration",
-        rule: "Six streams. `table`: for every encoding (2 byte orders x Dwarf32/64 x versions 2-5 x address sizes 1/2/4/8) and every entry kind of its list flavours (legacy .debug_ranges/.debug_loc pairs alone and after a base-selection entry; every DW_RLE_* / DW_LLE_* kind, index kinds through a .debug_addr with a non-zero addr_base, offset pairs also after base_address / base_addressx; the GNU .debug_loc.dwo flavour for versions 2-4) x 8 unit base addresses (0, 1, 0x10, mid, max-0x10, max-2, max-1, max) x all 49 operand pairs over {0,1,2,mid,max-2,max-1,max} (lengths additionally max+1 and 2^64-1): one single-entry list per case, read raw and cooked. `rand`: seeded sections with 1-4 lists of 0-30 entries (boundary addresses, wrap-around sums, empty/inverted/tombstone ranges, out-of-table indices, padded ULEB128 operands, expressions of 0-330 bytes, junk / foreign tables in front, unterminated last list), read through raw_ranges/ranges, raw_locations/locations(+_dwo), Iterator impls and next_raw+convert_raw, plus get_offset for every table slot. `offsets`: get_offset and DebugAddr::get_address over enumerated (base, index) pairs incl. the last slot, one past it and overflowing products. `die`: every combination of DW_AT_low_pc form (absent/addr/addrx) x DW_AT_high_pc form (absent/addr/addrx/data1/2/4/8/udata/sdata/negative sdata) x DW_AT_ranges form (absent/sec_offset/rnglistx/other) x 3 attribute orders x 64 encodings through die_ranges and unit_ranges. `unit`: seeded hand-assembled units in main files, .dwo files (file_type set directly) and skeleton+split pairs (make_dwo, copy_relocated_attributes), with DW_AT_addr_base/GNU_addr_base, rnglists_base/GNU_ranges_base, loclists_base present or defaulted, list attributes in sec_offset (data4/data8 for versions 2-3), rnglistx and loclistx forms on the root and on children; Unit fields, attr_ranges_offset, attr_ranges, ranges, raw_ranges, die_ranges, unit_ranges, attr_locations_offset, attr_locations, locations, raw_locations and the UnitRef twins are compared with the model. `hostile`: random bytes and single mutations (truncation, byte substitution, integer injection, field-map driven) of valid sections through all list iterators at several offsets: every yielded range must be non-empty and start below 2^(8*size)-2, and the entries must equal the model's decode of the same bytes up to the first undecodable entry. A case is non-trivial when it holds at least one list entry (table/rand/unit/hostile), one in-range lookup (offsets) or one range-bearing attribute (die); table/die/offsets cases are distinct by construction, the others by a digest of their sections.",
+        rule: "Seven streams. `enum`: every byte string of length <= 4 over a 14-symbol alphabet read as a list of every flavour (invariant + differential decode, see `hostile`). `table`: for every encoding (2 byte orders x Dwarf32/64 x versions 2-5 x address sizes 1/2/4/8) and every entry kind of its list flavours (legacy .debug_ranges/.debug_loc pairs alone and after a base-selection entry; every DW_RLE_* / DW_LLE_* kind, index kinds through a .debug_addr with a non-zero addr_base, offset pairs also after base_address / base_addressx; the GNU .debug_loc.dwo flavour for versions 2-4) x 8 unit base addresses (0, 1, 0x10, mid, max-0x10, max-2, max-1, max) x all 49 operand pairs over {0,1,2,mid,max-2,max-1,max} (lengths additionally max+1 and 2^64-1): one single-entry list per case, read raw and cooked. `rand`: seeded sections with 1-4 lists of 0-30 entries (boundary addresses, wrap-around sums, empty/inverted/tombstone ranges, out-of-table indices, padded ULEB128 operands, expressions of 0-330 bytes, junk / foreign tables in front, unterminated last list), read through raw_ranges/ranges, raw_locations/locations(+_dwo), Iterator impls and next_raw+convert_raw, plus get_offset for every table slot. `offsets`: get_offset and DebugAddr::get_address over enumerated (base, index) pairs incl. the last slot, one past it and overflowing products. `die`: every combination of DW_AT_low_pc form (absent/addr/addrx) x DW_AT_high_pc form (absent/addr/addrx/data1/2/4/8/udata/sdata/negative sdata) x DW_AT_ranges form (absent/sec_offset/rnglistx/other) x 3 attribute orders x 64 encodings through die_ranges and unit_ranges. `unit`: seeded hand-assembled units (one in five with one of .debug_ranges/.debug_rnglists, .debug_loc/.debug_loclists, .debug_addr damaged by a single mutation after generation; the model reads the same bytes) in main files, .dwo files (file_type set directly) and skeleton+split pairs (make_dwo, copy_relocated_attributes), with DW_AT_addr_base/GNU_addr_base, rnglists_base/GNU_ranges_base, loclists_base present or defaulted, list attributes in sec_offset (data4/data8 for versions 2-3), rnglistx and loclistx forms on the root and on children; Unit fields, attr_ranges_offset, attr_ranges, ranges, raw_ranges, die_ranges, unit_ranges, attr_locations_offset, attr_locations, locations, raw_locations and the UnitRef twins are compared with the model. `hostile`: random bytes and single mutations (truncation, byte substitution, integer injection, field-map driven) of valid sections through all list iterators at several offsets: every yielded range must be non-empty and start below 2^(8*size)-2, and the entries must equal the model's decode of the same bytes up to the first undecodable entry. A case is non-trivial when it holds at least one list entry (table/rand/unit/hostile), one in-range lookup (offsets) or one range-bearing attribute (die); table/die/offsets cases are distinct by construction, the others by a digest of their sections.",
         assumptions: &[
             "sums base+offset and begin+length wrap to the unit's address size (DESIGN A.7)",
             "documented filtering is part of the model: entries with begin >= 2^(8*size)-2, begin >= end, or (offset pairs) a running base >= 2^(8*size)-2 are not yielded",
@@ -44,6 +44,7 @@ pub fn info() -> PropInfo {
             "single-entry lists: 64 encodings x every entry kind of each flavour (incl. base+pair, basex+pair) x 8 unit bases x 49 (56 for lengths) operand pairs (stream `table`)",
             "die_ranges: 3 low_pc forms x 10 high_pc forms x 4 ranges forms x 3 attribute orders x 64 encodings (stream `die`)",
             "get_offset / get_address: 2 byte orders x Dwarf32/64 x address sizes x enumerated (base, index) grid around the section end (stream `offsets`)",
+            "every byte string of length <= 4 (dbg profile: <= 3) over {0..9, 0x7f, 0x80, 0xfe, 0xff} read as a list of each of the five flavours with address sizes 1 and 2 and unit base 0 / max-1 (stream `enum`)",
         ],
         must_observe: &[
             "flavor.ranges", "flavor.loc", "flavor.rle", "flavor.lle", "flavor.gnulle",
@@ -59,11 +60,11 @@ pub fn info() -> PropInfo {
             "unit.lowpc.zero", "unit.lowpc.small", "unit.lowpc.nearmax", "unit.lowpc.absent", "unit.lowpc.indexed",
             "unit.ranges.sec_offset", "unit.ranges.rnglistx", "unit.ranges.gnu_ranges_base", "unit.ranges.dwo_v5_sec_offset",
             "unit.loc.sec_offset", "unit.loc.loclistx", "unit.loc.exprloc", "unit.base.default_dwo_v5", "unit.base.explicit",
-            "unit.unit_ranges", "unit.unitref",
+            "unit.unit_ranges", "unit.unitref", "unit.mutated_section",
             "die.list", "die.single.some", "die.single.none", "die.error", "die.unjudged",
             "die.high.addr", "die.high.addrx", "die.high.data1", "die.high.data2", "die.high.data4", "die.high.data8", "die.high.udata", "die.high.sdata", "die.high.sdata_neg", "die.high.absent",
             "die.low.addr", "die.low.addrx", "die.low.absent", "die.ranges.sec_offset", "die.ranges.rnglistx", "die.ranges.other", "die.ranges.absent",
-            "hostile.random", "hostile.mutated", "hostile.field", "hostile.ranges_checked", "hostile.end.truncated", "hostile.end.unknown", "hostile.end.clean", "hostile.differential",
+            "hostile.random", "hostile.mutated", "hostile.field", "hostile.c01seed", "hostile.ranges_checked", "hostile.end.truncated", "hostile.end.unknown", "hostile.end.clean", "hostile.differential",
         ],
         run,
     }
@@ -919,7 +920,35 @@ fn stream_hostile(ctx: &mut Ctx) {
         let flavor = flavor_for(&mut r, enc.version);
         obs_enc(ctx, enc);
         let mask = enc.addr_mask();
-        match r.below(4) {
+        match r.below(5) {
+            4 => {
+                // the C01 seed sections (written by gimli::write / hand-assembled), mutated
+                ctx.obs("hostile.c01seed");
+                let secs = if r.chance(1, 2) { crate::gen::seeds::dwarf_seed(enc, &mut r) } else { None };
+                let secs = secs.unwrap_or_else(|| crate::gen::seeds::misc_seed(enc, &mut r));
+                let id = match flavor {
+                    Flavor::Ranges => gimli::SectionId::DebugRanges,
+                    Flavor::Rle => gimli::SectionId::DebugRngLists,
+                    Flavor::Lle => gimli::SectionId::DebugLocLists,
+                    _ => gimli::SectionId::DebugLoc,
+                };
+                let sec = secs.get(id).to_vec();
+                let addr_sec = secs.get(gimli::SectionId::DebugAddr).to_vec();
+                let c = mutate::count(sec.len());
+                let (mutated, how) = mutate::nth(&sec, r.below(c));
+                let base = g::unit_base(r.usize(g::UNIT_BASES), mask);
+                let hdr = if flavor == Flavor::Rle || flavor == Flavor::Lle { m::lists_header_size(enc.fmt64) } else { 0 };
+                let mut offs = vec![0u64, hdr, r.below(mutated.len() as u64 + 2)];
+                // table slots of the v5 seed sections
+                for ix in 0..2 {
+                    if let Some(o) = m::table_offset(&mutated, enc.le, enc.fmt64, hdr, ix) {
+                        offs.push(o);
+                    }
+                }
+                for off in offs {
+                    hostile_one(ctx, "hostile", enc, flavor, &mutated, off, &addr_sec, if enc.fmt64 { 16 } else { 8 }, base, &format!("c01 seed: {how}"));
+                }
+            }
             0 => {
                 // random bytes, biased to small kind codes and 0x00/0xff runs
                 ctx.obs("hostile.random");
@@ -974,7 +1003,48 @@ fn stream_hostile(ctx: &mut Ctx) {
     }
 }
 
+// ================================================================ stream: enum (short byte strings)
+
+const ALPHABET: [u8; 14] = [0, 1, 2, 3, 4, 5, 6, 7, 8, 9, 0x7f, 0x80, 0xfe, 0xff];
+
+fn stream_enum(ctx: &mut Ctx) {
+    // every string of length <= 4 (dbg: <= 3) over ALPHABET, as a list of every flavour with
+    // address size 1 and 2, unit base 0 and max-1; .debug_addr = the ALPHABET bytes
+    let maxlen = if ctx.dbg() || ctx.slow() { 3 } else { 4 };
+    let k = ALPHABET.len() as u64;
+    let mut first = 0u64; // index of the first string of the current length
+    let mut count = 1u64;
+    for len in 0..=maxlen {
+        for j in 0..count {
+            let idx = first + j;
+            if !ctx.want("enum", idx) {
+                continue;
+            }
+            let mut s = Vec::with_capacity(len);
+            let mut x = j;
+            for _ in 0..len {
+                s.push(ALPHABET[(x % k) as usize]);
+                x /= k;
+            }
+            for (version, flavors) in [(4u16, &[Flavor::Ranges, Flavor::Loc, Flavor::GnuLle][..]), (5u16, &[Flavor::Rle, Flavor::Lle][..])] {
+                for addr in [1u8, 2] {
+                    let enc = Enc::new(idx % 2 == 0, idx % 3 == 0, version, addr);
+                    for &flavor in flavors {
+                        for base in [0u64, enc.addr_mask() - 1] {
+                            hostile_one(ctx, "enum", enc, flavor, &s, 0, &ALPHABET, 1, base, "enumerated");
+                        }
+                    }
+                }
+            }
+            ctx.counted_distinct += 1;
+        }
+        first += count;
+        count *= k;
+    }
+}
+
 pub fn run(ctx: &mut Ctx) {
+    stream_enum(ctx);
     stream_table(ctx);
     stream_rand(ctx);
     stream_offsets(ctx);
